@@ -9,7 +9,7 @@ META = dict(
     functions=["FrequencyDirectionSpectrum.direction_step", "tools.math.wrapped_difference", "_directionally_integrate",
                "e/a1/b1/a2/b2", "radian_direction", "as_frequency_spectrum", "operations.integrate_spectral_data",
                "operations.numba_integrate_spectral_data", "numba_directionally_integrate_spectral_data"],
-    bounds=dict(quick="nd in 3..5 directions, nf=2, grids: uniform start 0, uniform start 7.5 deg, non-uniform, fully "
+    bounds=dict(quick="nd in 3..5 directions, nf=2, grids: uniform start 0 / 7.5 / -180 / 275 (running past 360) deg, non-uniform, fully "
                       "symbolic increasing grid with every bin < 180 deg; batch (time=2); zero and NaN bins",
                 thorough="nd up to 8, nf=3"),
     outside=["8..144 direction bins beyond the stated nd (same code path, not claimed)", "float64 rounding",
@@ -212,11 +212,14 @@ def cases(tier):
 
     nds = [3, 4, 5] if q else [3, 4, 5, 6, 8]
     for nd in nds:
-        for dg in ("uniform0", "uniform_off", "nonuniform", "sym"):
+        for dg in ("uniform0", "uniform_off", "nonuniform", "uniform_neg", "past360", "sym"):
             add("case_steps", f"steps_nd{nd}_{dg}", nd=nd, dgrid=dg)
     for nd, dg, layout in ((3, "uniform0", "scalar"), (4, "uniform_off", "time"), (4, "nonuniform", "scalar"),
                            (5, "nonuniform", "scalar")) + (() if q else ((8, "uniform_off", "time"),)):
         add("case_moments", f"mom_nd{nd}_{dg}_{layout}", nf=2, nd=nd, dgrid=dg, layout=layout, opts=dict(weight=nd * 5))
+    add("case_moments", "mom_nd4_uniform_neg_scalar", nf=2, nd=4, dgrid="uniform_neg", layout="scalar")
+    add("case_moments", "mom_nd3_past360_time", nf=2, nd=3, dgrid="past360", layout="time")
+    add("case_bounds", "bounds_nd4_uniform_neg", nd=4, dgrid="uniform_neg")
     add("case_energy_symgrid", "e_symgrid_nd3", nf=2, nd=3, layout="scalar")
     add("case_energy_symgrid", "e_symgrid_nd4_time", nf=2, nd=4, layout="time")
     add("case_moments", "mom_nan_nd3", nf=2, nd=3, dgrid="uniform_off", layout="scalar", nanmask=[0, 1, 0, 0, 0, 0])
